@@ -21,6 +21,8 @@ TEMPLATES = ["echo {1..%s}", "echo {%s..3}", "echo {a..z..%s}", "echo {1..5..%s}
              "x=é; echo ${x:%s}", "declare -c x=éa%s; echo $x", "echo ${x:-%s}", "wait %%%s", "fc -l %s", "echo $'\\x%s'", "echo $'\\u%s'", "printf '\\x%s'",
              "cd -%s", "pushd +%s", "dirs -%s", "trap : %s", "let x=%s", "(( x = %s ))", "[[ 1 -lt %s ]]", "[ 1 -lt %s ]", "test -t %s", "echo ${!x%s}", "echo ${x^^%s}", "getopts %s o", "mapfile -n %s a </dev/null",
              "mapfile -s %s a </dev/null", "mapfile -O %s a </dev/null", "read -t %s x </dev/null", "read -u %s x", "echo ${#%s}", "for ((i=%s; i<1; i++)); do :; done", "echo {%s,}", "hash -p /bin/ls %s"]
+HERE_TAGS = ["$(", "$( ", "`", "${", "$((", "'", '"', "\\", "E", "''", "<", "&", "(", ")", "$x", "\n", "", "é", "#", "E$(", "\"E\"F", "\\E"]
+HERE_TAILS = ["", " ", "  ", "\n", " x\n", "\nE\n", "\nx\nE", "\n\n", " <<F\nE\nF\n", ")\nE\n"]
 NEST = [("(", ")", " :"), ("{ ", "; }", ":"), ("$(", ")", "echo x"), ("${x:-", "}", "y"), ("$((", "))", "1"), ("`", "`", None), ('"$(', ')"', "echo x"), ("[[ ! ", " ]]", "a"),
         ("if :; then ", "; fi", ":"), ("case x in x) ", ";; esac", ":"), ("while false; do ", "; done", ":"), ("f() { ", "; }", ":"), ("eval '", "'", None), ("! ", "", ":"), ("( ( ", " ) )", ":")]
 
@@ -92,7 +94,8 @@ def run(tier):
             incomplete[t["cut"]] = t["open"]
     boundary = [tpl % b for tpl in TEMPLATES for b in BOUNDARY]
     nests = nest_family()
-    for s in boundary + nests:
+    heretags = [pre + "<<" + dash + tag + tail for pre in ("a", "cat ", "$(cat ", "{ cat ") for dash in ("", "-") for tag in HERE_TAGS for tail in HERE_TAILS]
+    for s in boundary + nests + heretags:
         corpus.add(s)
     corpus.discard("")
     corpus = sorted(corpus)
@@ -108,7 +111,7 @@ def run(tier):
                 continue
             v.violation("inproc:%s:%s" % (p.split(":")[0], corpus[r["id"]][:60]), {"kind": "panic in " + p.split(":")[0], "input": corpus[r["id"]], "panic": p})
     # (2) process-level execution
-    execset = set(boundary + nests)
+    execset = set(boundary + nests + heretags)
     model_done = sorted(set(t["done"] for t in texts))
     model_cut = sorted(incomplete)
     k_done, k_cut = (14000, 6000) if tier == "quick" else (len(model_done), len(model_cut))
